@@ -688,12 +688,25 @@ impl KeyKeeper {
             })?
         };
 
-        serde_json::from_str::<Key>(&key_data).map_err(|e| {
+        let key = serde_json::from_str::<Key>(&key_data).map_err(|e| {
             Error::Key(crate::common::error::KeyErrorType::FetchLocalKey(format!(
                 "Parse key data with error: {}",
                 e
             )))
-        })
+        })?;
+
+        // the file must hold the key it is named after, otherwise it is as unusable as an unreadable one
+        if key.guid != key_guid {
+            return Err(Error::Key(
+                crate::common::error::KeyErrorType::FetchLocalKey(format!(
+                    "Key file '{}' holds another key '{}'.",
+                    key_file.display(),
+                    key.guid
+                )),
+            ));
+        }
+
+        Ok(key)
     }
 
     fn fetch_key(key_dir: &Path, key_guid: &str) -> Result<Key> {
